@@ -14,7 +14,7 @@ from vlib.core import rng_for
 ID = "C12"
 LEVEL = "exploration"
 RULE = (
-    "case = block of scripts; a script = (history 0-20 rows on a tiny integer grid, with or without internal repeats; "
+    "case = block of sampler objects, each used for 1-3 successive sample() calls (fresh script and history per call, the history of equal or different length); a script = (history 0-20 rows on a tiny integer grid, with or without internal repeats; "
     "batch size 1-6; dims 1-3; pass budget 0-6; a scripted stream of rows mixing fresh rows, repeats of history, in-batch "
     "repeats and repeats of earlier redraws). Non-trivial = at least 2 redraw passes actually performed or budget "
     "exhausted with a surviving repeat; distinct by script hash."
@@ -23,7 +23,7 @@ ASSUMPTIONS = [
     "which redraw lands on which repeat position is not fixed by the statement: the model compares multisets and the untouched positions",
     "rows are finite, no signed zeros",
 ]
-REQUIRED_COUNTERS = {"scripts": 500, "two_or_more_passes": 50, "budget_exhausted": 20, "zero_budget": 5, "history_with_repeats": 20}
+REQUIRED_COUNTERS = {"reused_sampler_calls": 300, "scripts": 500, "two_or_more_passes": 50, "budget_exhausted": 20, "zero_budget": 5, "history_with_repeats": 20}
 SHARDS = {"quick": 8, "thorough": 16}
 
 
@@ -63,33 +63,19 @@ def model(history, script, batch_size, budget):
 
 
 def run_script(rng, out):
+    """One sampler object, 1-3 successive sample() calls on it with fresh scripts and histories (equal or different lengths)."""
     from black_it.samplers.base import BaseSampler
     from black_it.search_space import SearchSpace
+
+    from vlib.core import quiet
 
     dims = int(rng.integers(1, 4))
     width = int(rng.integers(2, 9))  # grid values 0..width-1 per axis: collisions likely
     bs = int(rng.integers(1, 7))
     budget = int(rng.integers(0, 7))
-    nh = int(rng.integers(0, 21))
     space = SearchSpace([[0.0] * dims, [float(width - 1)] * dims], [1.0] * dims, False)
-    if rng.random() < 0.4 or nh == 0:
-        history = rng.integers(0, width, size=(nh, dims)).astype(float)  # may contain internal repeats
-    else:
-        allpts = np.array(np.meshgrid(*[np.arange(width)] * dims)).reshape(dims, -1).T.astype(float)
-        history = allpts[rng.permutation(len(allpts))[: min(nh, len(allpts))]]
-    losses = rng.random(len(history))
-    # script stream: long enough for every possible request
-    total = bs * (budget + 1)
-    p_hist = float(rng.choice([0.0, 0.3, 0.7, 1.0]))
-    script = rng.integers(0, width, size=(total, dims)).astype(float)
-    for k in range(total):
-        u = rng.random()
-        if len(history) and u < p_hist * 0.6:
-            script[k] = history[rng.integers(len(history))]
-        elif k > 0 and u > 0.8:
-            script[k] = script[rng.integers(k)]  # repeat of an earlier draw / redraw
-
     log = []
+    cur = {"script": None}
 
     class Scripted(BaseSampler):
         def __init__(self):
@@ -98,56 +84,81 @@ def run_script(rng, out):
 
         def sample_batch(self, batch_size, search_space, existing_points, existing_losses):
             log.append(int(batch_size))
-            r = script[self.pos:self.pos + batch_size].copy()
+            r = cur["script"][self.pos:self.pos + batch_size].copy()
             self.pos += batch_size
             return r
 
-    hist_before = history.copy()
-    desc = {"dims": dims, "width": width, "batch_size": bs, "budget": budget, "history": history, "script": script}
-    from vlib.core import quiet
-
-    try:
-        with quiet():
-            got = Scripted().sample(space, history, losses)
-    except Exception as e:  # noqa: BLE001
-        out["violations"].append({"msg": f"sample() raised {type(e).__name__}: {e}", "witness": desc})
-        return
-    requests, multiset, touched, first, survived, passes = model(hist_before, script, bs, budget)
+    with quiet():
+        sampler = Scripted()
     c = out["counters"]
-    c["scripts"] = c.get("scripts", 0) + 1
-    out["evals"] += 1
-    if len(np.unique(hist_before, axis=0)) < len(hist_before):
-        c["history_with_repeats"] = c.get("history_with_repeats", 0) + 1
-    if budget == 0:
-        c["zero_budget"] = c.get("zero_budget", 0) + 1
-    if passes >= 2:
-        c["two_or_more_passes"] = c.get("two_or_more_passes", 0) + 1
-    if survived and passes == budget and budget > 0:
-        c["budget_exhausted"] = c.get("budget_exhausted", 0) + 1
-    if passes >= 2 or (survived and budget > 0):
-        out["nontrivial"].append(f"{hash((script.tobytes(), history.tobytes(), bs, budget)) & 0xFFFFFFFFFFFF:x}")
-    got = np.asarray(got)
-    w = dict(desc, requests_seen=log, requests_model=requests, returned=got)
-    if got.shape != (bs, dims):
-        out["violations"].append({"msg": f"returned shape {got.shape}, expected {(bs, dims)}", "witness": w})
-        return
-    if log != requests:
-        out["violations"].append({"msg": f"sample_batch was asked for {log} rows, the statement requires {requests}", "witness": w})
-        return
-    if Counter(map(tuple, got.tolist())) != multiset:
-        out["violations"].append({"msg": "returned multiset differs from first draw with repeats substituted by the redraws", "witness": w})
-        return
-    keep = ~touched
-    if not np.array_equal(got[keep], first[keep]):
-        out["violations"].append({"msg": "a row that was never a repeat was altered or moved", "witness": w})
-        return
-    n_rep = len(repeats_positions(hist_before, got))
-    if n_rep and passes < budget:
-        out["violations"].append({"msg": f"{n_rep} repeat(s) returned although only {passes} of {budget} passes were used", "witness": w})
-    if not np.array_equal(history, hist_before):
-        out["violations"].append({"msg": "history modified by sample()", "witness": w})
-    if c["scripts"] <= 1:
-        out["sample"] = {"batch_size": bs, "budget": budget, "history_rows": len(history), "requests": log, "returned": got}
+    nh = int(rng.integers(0, 21))
+    ncalls = int(rng.integers(1, 4))
+    for call in range(ncalls):
+        if call > 0 and rng.random() < 0.5:
+            nh = int(rng.integers(0, 21))      # else: a different history of the same length as in the previous call
+        if rng.random() < 0.4 or nh == 0:
+            history = rng.integers(0, width, size=(nh, dims)).astype(float)  # may contain internal repeats
+        else:
+            allpts = np.array(np.meshgrid(*[np.arange(width)] * dims)).reshape(dims, -1).T.astype(float)
+            history = allpts[rng.permutation(len(allpts))[: min(nh, len(allpts))]]
+        losses = rng.random(len(history))
+        total = bs * (budget + 1)
+        p_hist = float(rng.choice([0.0, 0.3, 0.7, 1.0]))
+        script = rng.integers(0, width, size=(total, dims)).astype(float)
+        for k in range(total):
+            u = rng.random()
+            if len(history) and u < p_hist * 0.6:
+                script[k] = history[rng.integers(len(history))]
+            elif k > 0 and u > 0.8:
+                script[k] = script[rng.integers(k)]  # repeat of an earlier draw / redraw
+        cur["script"] = script
+        sampler.pos = 0
+        del log[:]
+        hist_before = history.copy()
+        desc = {"dims": dims, "width": width, "batch_size": bs, "budget": budget, "history": history, "script": script, "call_on_this_object": call}
+        try:
+            with quiet():
+                got = sampler.sample(space, history, losses)
+        except Exception as e:  # noqa: BLE001
+            out["violations"].append({"msg": f"sample() raised {type(e).__name__}: {e}", "witness": desc})
+            return
+        requests, multiset, touched, first, survived, passes = model(hist_before, script, bs, budget)
+        c["scripts"] = c.get("scripts", 0) + 1
+        out["evals"] += 1
+        if call > 0:
+            c["reused_sampler_calls"] = c.get("reused_sampler_calls", 0) + 1
+        if len(np.unique(hist_before, axis=0)) < len(hist_before):
+            c["history_with_repeats"] = c.get("history_with_repeats", 0) + 1
+        if budget == 0:
+            c["zero_budget"] = c.get("zero_budget", 0) + 1
+        if passes >= 2:
+            c["two_or_more_passes"] = c.get("two_or_more_passes", 0) + 1
+        if survived and passes == budget and budget > 0:
+            c["budget_exhausted"] = c.get("budget_exhausted", 0) + 1
+        if passes >= 2 or (survived and budget > 0):
+            out["nontrivial"].append(f"{hash((script.tobytes(), history.tobytes(), bs, budget)) & 0xFFFFFFFFFFFF:x}")
+        got = np.asarray(got)
+        w = dict(desc, requests_seen=list(log), requests_model=requests, returned=got)
+        if got.shape != (bs, dims):
+            out["violations"].append({"msg": f"returned shape {got.shape}, expected {(bs, dims)}", "witness": w})
+            return
+        if list(log) != requests:
+            out["violations"].append({"msg": f"sample_batch was asked for {list(log)} rows, the statement requires {requests}" + (f" (call {call} on a reused sampler object)" if call else ""), "witness": w})
+            return
+        if Counter(map(tuple, got.tolist())) != multiset:
+            out["violations"].append({"msg": "returned multiset differs from first draw with repeats substituted by the redraws", "witness": w})
+            return
+        keep = ~touched
+        if not np.array_equal(got[keep], first[keep]):
+            out["violations"].append({"msg": "a row that was never a repeat was altered or moved", "witness": w})
+            return
+        n_rep = len(repeats_positions(hist_before, got))
+        if n_rep and passes < budget:
+            out["violations"].append({"msg": f"{n_rep} repeat(s) returned although only {passes} of {budget} passes were used", "witness": w})
+        if not np.array_equal(history, hist_before):
+            out["violations"].append({"msg": "history modified by sample()", "witness": w})
+        if c["scripts"] <= 1:
+            out["sample"] = {"batch_size": bs, "budget": budget, "history_rows": len(history), "requests": list(log), "returned": got}
 
 
 def run_case(desc, ctx):
